@@ -5005,6 +5005,14 @@ class TLSConnection(TLSRecordLayer):
                                              "ChangeCipherSpec type incorrect"):
                     yield result
 
+        # nothing received under the old keys may be left half-read when
+        # the keys change (e.g. one byte of an alert)
+        if not self._defragmenter.is_empty():
+            for result in self._sendError(
+                    AlertDescription.unexpected_message,
+                    "Partial message before ChangeCipherSpec"):
+                yield result
+
         # Switch to pending read state
         self._changeReadState()
 
